@@ -199,6 +199,8 @@ val map : ('a1 -> 'a2) -> 'a1 list -> 'a2 list
 
 val flat_map : ('a1 -> 'a2 list) -> 'a1 list -> 'a2 list
 
+val fold_right : ('a2 -> 'a1 -> 'a1) -> 'a1 -> 'a2 list -> 'a1
+
 val existsb : ('a1 -> bool) -> 'a1 list -> bool
 
 val forallb : ('a1 -> bool) -> 'a1 list -> bool
@@ -687,6 +689,54 @@ val run_many : string -> v list -> v option
 val snapshot : row list -> row list res
 
 val run_store : string -> v list -> v option
+
+type vec = (q * q) * q
+
+type mat = (vec * vec) * vec
+
+val vadd : vec -> vec -> vec
+
+val vsub : vec -> vec -> vec
+
+val vdot : vec -> vec -> q
+
+val mv : mat -> vec -> vec
+
+val vscale : q -> vec -> vec
+
+val vsum : vec list -> vec
+
+val mean : vec list -> vec
+
+val superpose_selection : mat -> vec list -> vec list -> vec list -> vec list
+
+val xyz_of : row -> vec
+
+val pairs_of_tuples : row list list -> vec list * vec list
+
+val paired_selections : row list -> row list -> (vec list * vec list) res
+
+val set_xyz : row -> vec -> row
+
+val superpose : mat -> row list -> row list -> row list -> row list res
+
+val det : mat -> q
+
+val shared_pairs : row list -> row list -> vec list * vec list
+
+val close_to : q -> q -> q -> bool
+
+val is_rotation_eps : q -> mat -> bool
+
+val vec_of_V : v -> vec
+
+val mat_of_V : v -> mat
+
+val vvec : vec -> v
+
+val rows_of_V : v -> row list
+
+val run_superpose : string -> v list -> v option
 
 val vresS : string res -> v
 
